@@ -11,7 +11,19 @@ type Job struct {
 	Entry string
 	Cfg   int
 	Tier  int
+	Prop  string // property id of the running check; assertions labelled for another property are not evaluated
 	res   *JobResult
+}
+
+// foreignLabel: the label starts with a property id ("C07...") different from the running check's.
+func foreignLabel(label, prop string) bool {
+	if prop == "" || prop == "DEV" || len(label) < 3 || label[0] != 'C' {
+		return false
+	}
+	if label[1] < '0' || label[1] > '9' || label[2] < '0' || label[2] > '9' {
+		return false
+	}
+	return label[:3] != prop
 }
 
 type NondetVal struct {
@@ -465,6 +477,9 @@ func (e *Explorer) record(outcome, panicMsg string) *PathRecord {
 }
 
 func (e *Explorer) assert(label string, c *Term) {
+	if foreignLabel(label, e.job.Prop) {
+		return
+	}
 	res := e.job.res
 	if !e.asserted[label] {
 		e.asserted[label] = true
